@@ -16,6 +16,16 @@ SCOPE = ("Modelled, not verified: parsing, HIR lowering (body.rs), salsa and the
          "values_names_in_scope (resolver.rs) and the module value table. ")
 
 CHECKS = {
+ "C11": dict(
+  technique="Lean 4 proof of history independence of the reachable database inputs (M-db) + tie on the inputs through a read-only hook + fresh-instance oracle",
+  text=("apply_history_independent: after ANY sequence of changes (file contents, root lists that grow/shrink, graphs) the inputs reachable from "
+        "the live roots (graph, roots, module maps, content and root of every live file) equal those of a database that received the final "
+        "workspace in one change; content_last_write; moduleMap_of_root (Props/C11.lean). Tie: after every change of seeded histories the real "
+        "database inputs (hook AnalysisHost::verif_inputs) are compared with the model's view; the answers of the long-lived host are compared "
+        "with a fresh database in the same process and with another fresh one in a second process queried in reverse order. PARTIAL: salsa's "
+        "memoisation is trusted and purity of the derived queries is tested, not proved - three genuine order/hash dependences are recorded "
+        "(module-name collisions, type-variable letters, inference order inside ill-typed recursion groups)."),
+  note=TB + "Modelled, not verified: salsa inputs as association lists; durabilities are not modelled.", ref="5.C11, 4.5"),
  "C17": dict(
   technique="Lean 4 proofs about the path functions (M-project) + tie through the verif hooks on generated project trees + end-to-end through the binary",
   text=("moduleName_spec (<root>/<src|test>/<segs>/<n>.gleam is importable as segs/n), moduleName_other_ext, assignRoot_innermost / assignRoot_total "
